@@ -11,6 +11,9 @@
 (*   "cxnet"      CX networks (qubit permutations, linear maps) + H(0): the   *)
 (*                sections a re-synthesis can shorten or relabel (C12)       *)
 (*   "full"       every kind the library has, phases k*pi/8      (C13/C14)  *)
+(*   "zerotest"   X on (nearly) all controls, one MCX / MCtrl(X) with 4..NQ-1 *)
+(*                controls, the same X again: wide conjunctions of negated    *)
+(*                controls (every member is an initial state)                 *)
 (* A gate is [k, w, m] in the vocabulary of Circuit / QSim plus "cls", the  *)
 (* library class that the harness must instantiate.                         *)
 (***************************************************************************)
@@ -42,13 +45,22 @@ Alphabet ==
                               \cup {G("H", "H", <<0>>, 0), G("Z", "Z", <<1 % NQ>>, 0), G("T", "T", <<(NQ - 1)>>, 0)}
     [] Family = "xhbar" -> X1 \cup Bar \cup {G("H", "H", <<0>>, 0), G("H", "H", <<1 % NQ>>, 0)}
     [] Family = "cxnet" -> CX2 \cup {G("H", "H", <<0>>, 0)}
+    [] Family = "zerotest" -> {}
     [] Family = "full" -> X1 \cup CX2 \cup CCX3 \cup MCX4 \cup Bar \cup {G("I", "I", <<0>>, 0)} \cup Single("H")
                           \cup {G("P", "P", <<q>>, m) : q \in {0, NQ - 1}, m \in {0, 2, 6}}              \* the single-qubit phase gate, incl. phase 0
                           \cup {G("CP", "MCP", <<0, 1>>, 0)} \cup Single("Z") \cup Single("S")
                           \cup Single("T") \cup Single("Y") \cup CZ2 \cup SW2 \cup CP2 \cup MCZ3 \cup MCX3 \cup MCZ4
 
-Init == s = <<>>
-Next == Len(s) < MaxLen /\ \E g \in Alphabet : s' = Append(s, g)
+\* zero tests: controls 0..k-1, target k; S = the controls that are negated
+SetSeq(S) == LET RECURSIVE F(_) F(T) == IF T = {} THEN <<>> ELSE LET x == CHOOSE x \in T : \A y \in T : x <= y IN <<x>> \o F(T \ {x}) IN F(S)
+XS(S) == [j \in 1..Cardinality(S) |-> G("X", "X", <<SetSeq(S)[j]>>, 0)]
+ZeroTests ==
+  UNION {{XS(S) \o <<G(cls, "MCX", [j \in 1..(k + 1) |-> j - 1], 0)>> \o XS(S) \o tail :
+            cls \in {"MCX", "MCtrlX"}, S \in {T \in SUBSET (0..(k - 1)) : Cardinality(T) >= k - 1 \/ Cardinality(T) <= 1},
+            tail \in {<<>>, <<G("CX", "MCX", <<NQ - 1, 0>>, 0)>>}} : k \in 4..(NQ - 1)}
+
+Init == IF Family = "zerotest" THEN s \in ZeroTests ELSE s = <<>>
+Next == Family # "zerotest" /\ Len(s) < MaxLen /\ \E g \in Alphabet : s' = Append(s, g)
 Spec == Init /\ [][Next]_s
 Emit == Len(s) >= MinLen => PrintT(<<"G", ToJson(s)>>)
 =============================================================================
